@@ -1,6 +1,13 @@
 package hx
 
 import (
+	"context"
+	"fmt"
+	"github.com/PowerDNS/lightningstream/config"
+	"github.com/PowerDNS/lightningstream/syncer/events"
+	"github.com/PowerDNS/lightningstream/syncer/hooks"
+	"github.com/PowerDNS/lightningstream/syncer/receiver"
+	"github.com/sirupsen/logrus"
 	"math"
 	"path/filepath"
 	"regexp"
@@ -212,6 +219,35 @@ func cmdC15(args []string) error {
 		}
 		prev, prevT = name, t
 	}
+	// single-character damage to the timestamp field of a valid name: whatever still parses must re-build exactly
+	// the same name (so that byte order of accepted names is their time order), everything else is refused
+	for _, t := range []time.Time{nameTimes[3], nameTimes[4], time.Date(2022, 1, 2, 3, 4, 5, 0, time.UTC)} {
+		name := snapshot.Name("db", "inst", "GX", t)
+		ts := snapshot.NameTimestamp(t)
+		at := strings.Index(name, ts)
+		for pos := 0; pos < len(ts); pos++ {
+			for _, ch := range []byte{'-', '_', '.', '0', '9', 'x', ' ', ':'} {
+				if ts[pos] == ch {
+					continue
+				}
+				b := []byte(name)
+				b[at+pos] = ch
+				damaged := string(b)
+				ni, err := snapshot.ParseName(damaged)
+				R.Evaluations++
+				if err != nil {
+					continue
+				}
+				// re-built from the parsed components (not from the string BuildName keeps from parsing)
+				clean := ni
+				clean.TimestampString = ""
+				if rebuilt := clean.BuildName(); rebuilt != damaged {
+					R.Bad(damaged, map[string]interface{}{"prop": "C15", "class": "time-damage"},
+						"ParseName accepts %q (position %d of the timestamp damaged) but its components re-build to %q", damaged, pos, rebuilt)
+				}
+			}
+		}
+	}
 	// names of other databases never carry our prefix
 	dbs := []string{"a", "ab", "a-", "a-b", "default", "default2", "db", "d"}
 	for _, d1 := range dbs {
@@ -221,6 +257,37 @@ func cmdC15(args []string) error {
 			if strings.HasPrefix(n, d1+"__") != (d1 == d2) {
 				R.Bad(n, map[string]interface{}{"prop": "C15", "class": "prefix"}, "name %q of database %q matches the listing prefix of %q", n, d2, d1)
 			}
+		}
+	}
+	// a consumer of the names: the receiver's listing. Files under the database's prefix that are not snapshots
+	// (unparsable, unknown extension, another registered kind, other databases) do not make the bucket "have
+	// snapshots" and are no instances; one real snapshot does
+	{
+		otherKindOnce.Do(func() { snapshot.RegisterExtension("journal.gz", "journal") })
+		st := memory.New()
+		ctx := context.Background()
+		jn := snapshot.NameInfo{Kind: "journal", Extension: "journal.gz", SyncerName: "default", InstanceID: "i7", GenerationID: "GX", Timestamp: nameTimes[3]}
+		for _, f := range []string{"default__README", "default__i1__notatimestamp__GX.pb.gz", "default__i9__20240101-000100-000000000__GX.unknownext",
+			snapshot.Name("default2", "i1", "GX", nameTimes[3]), jn.BuildName()} {
+			_ = st.Store(ctx, f, []byte("x"))
+		}
+		l := logrus.New()
+		l.SetLevel(logrus.PanicLevel)
+		conf := config.Default()
+		rc := receiver.New(st, conf, "default", l, "own", events.New(), hooks.New())
+		sigc := map[string]interface{}{"prop": "C15", "class": "listing"}
+		R.Evaluations++
+		if err := rc.RunOnce(ctx, true); err != nil {
+			R.Bad("listing", sigc, "RunOnce: %v", err)
+		} else if rc.HasSnapshots() || len(rc.SeenInstances()) != 0 {
+			R.Bad("listing", sigc, "a bucket that holds only files that are not snapshots of this database: HasSnapshots()=%v, instances %v", rc.HasSnapshots(), rc.SeenInstances())
+		}
+		_ = st.Store(ctx, snapshot.Name("default", "i3", "GX", nameTimes[3]), []byte("x"))
+		R.Evaluations++
+		if err := rc.RunOnce(ctx, true); err != nil {
+			R.Bad("listing", sigc, "RunOnce: %v", err)
+		} else if !rc.HasSnapshots() || fmt.Sprint(rc.SeenInstances()) != "[i3]" {
+			R.Bad("listing", sigc, "one snapshot of instance i3 among files that are not snapshots: HasSnapshots()=%v, instances %v", rc.HasSnapshots(), rc.SeenInstances())
 		}
 	}
 	R.Counters["parse_rows"] = len(rows)
